@@ -1,7 +1,7 @@
 (* Property C10: CNOT-cost estimates equal the counts of the synthesis recursion.
    The estimate functions are TRANSLATED FROM /repo/qclib/unitary.py on every run (Gen_unitary_counts). *)
 From Coq Require Import ZArith List Bool.
-From QV Require Import GenLib Counts Gen_unitary_counts CountsGen Gen_isometry_counts CcdGen.
+From QV Require Import GenLib Counts Gen_unitary_counts CountsGen Gen_isometry_counts CcdGen UcrModel UcrCount.
 Open Scope Z_scope.
 
 (* skeleton of the synthesis: c(2) = 3, c(n) = 2*(2*c(n-1) + 2^(n-1)) + (2^(n-1) - 1) *)
@@ -39,3 +39,10 @@ Print Assumptions C10_ccd_state_estimate.
 Example ex_values : _cnot_count_estimate 3 0 0 true = 20 /\ _cnot_count_estimate 4 0 0 true = 100
                     /\ _cnot_count_estimate 5 0 0 true = 444 /\ cx_build_a2 3 = 444.
 Proof. vm_compute. auto. Qed.
+
+(* the building block of the estimates: the model of qclib.gates.ucr.ucr (C13, compared with the code on every run) emits
+   2^k - 1 entanglers on k >= 1 controls, one more with the trailing entangler, whatever the angles *)
+Theorem C10_ucr_entangler_count : forall (A : Type) (o : UcrModel.aops A) r e (k : nat) (a : nat -> A) (last : bool), (1 <= k)%nat ->
+  UcrCount.count_ent (UcrModel.ucr_g o r e k a last) = if last then (2 ^ k)%nat else (2 ^ k - 1)%nat.
+Proof. intros A o r e k a last H. now apply UcrCount.ucr_count. Qed.
+Print Assumptions C10_ucr_entangler_count.
